@@ -375,10 +375,14 @@ func channelTypestate(c *engine.Ctx, id, rel string) {
 // refusedLeavesNoTrace: a write method whose version-guarded (or insert-only) write of the record can be
 // refused must not have written anything else before it. The configuration stores keep their value maps
 // in primitives of their own; written first, they carry a refused writer's values.
-func refusedLeavesNoTrace(c *engine.Ctx, id, rel string) {
+func refusedLeavesNoTrace(c *engine.Ctx, id, rel string, only ...string) {
 	o := c.Custom(id, "K-order(first effect)", "in Create/Update/UpdateStatus of the configuration store no write to another primitive (the store() of a value map) precedes the conditional write of the record (Insert, or Update with IfVersion)",
 		"two writers that read the same version cannot both take effect: the loser's Update returns an error, and must also leave what the winner wrote")
-	defer o.Done(3)
+	min := 3
+	if len(only) > 0 {
+		min = len(only)
+	}
+	defer func() { o.Done(min) }()
 	paths, err := storePaths(c, rel)
 	if err != nil {
 		o.Undecided(rel, err.Error())
@@ -393,6 +397,9 @@ func refusedLeavesNoTrace(c *engine.Ctx, id, rel string) {
 		name := p.Root.Name()
 		m := name[strings.LastIndex(name, ".")+1:]
 		if !strings.Contains(name, "configurationStore.") || (m != "Create" && m != "Update" && m != "UpdateStatus") {
+			continue
+		}
+		if len(only) > 0 && !hasArg(only, m) {
 			continue
 		}
 		valuesAt, recordAt := -1, -1
